@@ -766,6 +766,7 @@ func runPxScenario(t *testing.T, idx int, kind string, sc pxScenario, em *Emitte
 	var coqSteps, coqObs []string
 	var obsList []pxObs
 	var drops int64
+	tickEvents := false
 	em.Marker("begin", idx)
 	// a goroutine waiting for a sync.Mutex is not durably blocked: a lock held across a blocking call in the proxy
 	// makes synctest.Wait hang; the watcher reports the scenario as wedged (exit 3) and the run resumes after it
@@ -790,19 +791,31 @@ func runPxScenario(t *testing.T, idx int, kind string, sc pxScenario, em *Emitte
 				continue
 			}
 			synctest.Wait()
-			// a tick of virtual time: the proxy has no timer, nothing may happen; a retry loop would run now
-			time.Sleep(100 * time.Millisecond)
-			synctest.Wait()
 			if rig.cancelW && rig.ctx.Err() == nil {
 				// the envelope that was to trigger the cancellation never reached the interceptor
 				rig.cancel()
 				synctest.Wait()
 			}
+			// the observation is made WITHOUT letting virtual time pass: whatever the step causes must have happened
 			o := rig.snapshot()
 			drops += o.Drops
 			obsList = append(obsList, o)
 			coqSteps = append(coqSteps, coqList(terms))
 			coqObs = append(coqObs, o.coq())
+			// then a tick of virtual time: the proxy has no timer, nothing may happen. If something does (a retry
+			// loop, a grace period inside the forwarding loop), it is recorded as a step of its own without any
+			// action: the model predicts that nothing happens there, and the predicates see the delay
+			time.Sleep(150 * time.Millisecond)
+			synctest.Wait()
+			o2 := rig.snapshot()
+			if len(o2.Outs)+len(o2.Dials)+len(o2.Disc)+len(o2.WFail) > 0 || o2.Drops != 0 || o2.Fw != o.Fw || o2.Nrd != o.Nrd ||
+				o2.Nwr != o.Nwr || o2.Nrw != o.Nrw || o2.Ndl != o.Ndl || o2.Ngoat != o.Ngoat || fmt.Sprint(o2.Reg) != fmt.Sprint(o.Reg) || o2.Crash != o.Crash {
+				drops += o2.Drops
+				obsList = append(obsList, o2)
+				coqSteps = append(coqSteps, "[]")
+				coqObs = append(coqObs, o2.coq())
+				tickEvents = true
+			}
 		}
 		wstep()
 		rig.cleanup()
@@ -815,6 +828,9 @@ func runPxScenario(t *testing.T, idx int, kind string, sc pxScenario, em *Emitte
 	}
 	if leaked {
 		tags = append(tags, "leaked-at-end")
+	}
+	if tickEvents {
+		tags = append(tags, "something-happened-while-only-time-passed")
 	}
 	em.Emit(Rec{Idx: idx, Kind: kind, Desc: sc, Obs: obsList, Tags: tags,
 		Coq: fmt.Sprintf("%s %d %d %d %s %s", map[string]string{"proxy": "CProxy", "proxy-loose": "CProxyLoose", "proxy-red": "CProxyRed", "proxy-held": "CProxyHeld"}[kind],
